@@ -301,8 +301,8 @@ def adc(img, gain, saturation_capacity=None, warn_saturate=False, dtype=None):
             if np.any(img > saturation_capacity):
                 warnings.warn('Frame has saturated pixels.')
 
-        # Apply the saturation limit
-        img[img > saturation_capacity] = saturation_capacity
+        # Apply the saturation limit (on a copy, the input frame is left alone)
+        img = np.minimum(img, saturation_capacity)
 
     # Determine the polynomial order
     gain = np.asarray(gain)
